@@ -342,8 +342,22 @@ Lemma ov_release_of : forall c S p w e t h d, OV c S p w e t h -> OV c (release_
 Proof. intros. unfold release_of, sem_release. destruct (c_addr (getc S d)); auto. apply ov_wake_next, ov_set_sem; auto. Qed.
 Lemma ov_server_event : forall c S p w e t h le, OV c S p w e t h -> OV c (server_event S le) p w e t h.
 Proof. intros. eapply ov_frame; eauto using frame_server_event. Qed.
-Lemma ov_drain : forall c S p w e t h, OV c S p w e t h -> OV c (drain_writers S) p w e t h.
-Proof. intros. eapply ov_frame; eauto using frame_drain. Qed.
+Lemma ov_set_lock : forall c S p w e t h b q, OV c S p w e t h -> OV c (set_lock S b q) p w e t h.
+Proof. intros c S p w e t h b q H. exact H. Qed.
+Lemma ov_drain_error : forall c S p w e t h d, OV c S p w e t h -> OV c (drain_error S d) p w e t h.
+Proof. intros. eapply ov_frame; eauto using frame_drain_error. Qed.
+Lemma ov_setc_cong : forall c S p w e t h d b, OV c S p w e t h -> OV c (setc S d (with_cong (getc S d) b)) p w e t h.
+Proof. intros. eapply ov_frame; eauto. apply frame_setc. unfold psoft; simpl; intuition. Qed.
+Lemma ov_wake_first : forall c S p w e t h, OV c S p w e t h -> OV c (wake_first S) p w e t h.
+Proof.
+  intros c S p w e t h H. unfold wake_first. destruct (dlockq S); auto.
+  destruct (c_pc (getc S n)) eqn:E0; auto. destruct w0; auto.
+  destruct H as (L & P & W & E & T & H). unfold OV. rewrite len_setc. destruct (Nat.eq_dec n c).
+  - subst. rewrite getc_setc_same; auto. simpl. rewrite E0 in P. repeat split; auto.
+  - rewrite getc_setc_other; auto. repeat split; auto.
+Qed.
+Lemma ov_lock_release : forall c S p w e t h, OV c S p w e t h -> OV c (lock_release S) p w e t h.
+Proof. intros. unfold lock_release. destruct (dlocked S); auto. apply ov_wake_first, ov_set_lock. auto. Qed.
 
 Lemma ov_finish : forall c S p w e t h x k, OV c S p w e t h -> OV c (finish S c x k) (PDone x) w e t h.
 Proof.
@@ -375,8 +389,31 @@ Proof.
   - eapply good_ov; [eapply ov_hc_cleanup, ov_server_event, H1; auto|reflexivity|simpl; auto].
 Qed.
 
+Lemma good_drain_go : forall c l S p,
+  OV c S p WOpen true true [HServerConnected; HServerConnect] -> Good c (drain_go S c l).
+Proof.
+  induction l; simpl; intros S p H.
+  - eapply good_ov; [eapply ov_hc_read, ov_lock_release, H|reflexivity|simpl; auto].
+  - destruct (c_writer (getc S a)); eauto. destruct (c_broken (getc S a)).
+    + eapply IHl. eapply ov_drain_error; eauto.
+    + destruct (c_cong (getc S a)); eauto.
+      eapply good_ov; [eapply ov_goto, ov_emit_other; [reflexivity|exact H]|reflexivity|simpl; auto].
+Qed.
+Lemma good_drain_start : forall c S p,
+  OV c S p WOpen true true [HServerConnected; HServerConnect] -> Good c (drain_start S c).
+Proof.
+  intros. unfold drain_start. destruct (lock_free S).
+  - eapply good_drain_go. eapply ov_set_lock; eauto.
+  - destruct (c_cf (getc S c)); (eapply good_ov; [eapply ov_goto, ov_set_lock; eauto|reflexivity|simpl; auto]).
+Qed.
+
 Ltac ovr :=
   repeat match goal with
+  | |- OV _ (set_lock _ _ _) _ _ _ _ _ => eapply ov_set_lock
+  | |- OV _ (lock_release _) _ _ _ _ _ => eapply ov_lock_release
+  | |- OV _ (wake_first _) _ _ _ _ _ => eapply ov_wake_first
+  | |- OV _ (drain_error _ _) _ _ _ _ _ => eapply ov_drain_error
+  | |- OV _ (setc _ _ (with_cong _ _)) _ _ _ _ _ => eapply ov_setc_cong
   | |- OV _ _ _ _ _ _ _ => eassumption
   | |- OV _ (finish _ _ _ _) _ _ _ _ _ => eapply ov_finish
   | |- OV _ (hook_at _ _ _ _) _ _ _ _ _ => eapply ov_hook_at; [reflexivity|]
@@ -385,7 +422,6 @@ Ltac ovr :=
   | |- OV _ (hc_cleanup _ _ _) _ _ _ _ _ => eapply ov_hc_cleanup; [assumption|]
   | |- OV _ (release_of _ _) _ _ _ _ _ => eapply ov_release_of
   | |- OV _ (server_event _ _) _ _ _ _ _ => eapply ov_server_event
-  | |- OV _ (drain_writers _) _ _ _ _ _ => eapply ov_drain
   | |- OV _ (goto _ _ _) _ _ _ _ _ => eapply ov_goto
   | |- OV _ (wake_next _ _) _ _ _ _ _ => eapply ov_wake_next
   | |- OV _ (set_sem _ _ _ _) _ _ _ _ _ => eapply ov_set_sem
@@ -414,10 +450,16 @@ Proof.
   - destruct (c_addr (getc s c)); [|gd]. destruct w; gd.
   - destruct (c_addr (getc s c)); [|gd]. destruct w; try solve [gd].
     match goal with |- context [Nat.ltb 0 ?v] => destruct (Nat.ltb 0 v) end; gd.
-  - destruct (c_wk (getc s c)) as [[| | |[|]]|]; gd.
+  - destruct (c_wk (getc s c)) as [[| | |[|]|]|]; gd.
   - rewrite Q, Q0, I2 in H. eapply good_hc_after_loop; auto. ovr.
-  - rewrite Q, Q0, I2 in H. destruct (c_wk (getc s c)) as [[| |[| |]|]|]; try solve [gd];
-      (eapply good_hc_after_loop; auto; ovr).
+  - rewrite Q, Q0, I2 in H. destruct (c_wk (getc s c)) as [[| |[| |]| |]|]; try solve [gd];
+      try (eapply good_hc_after_loop; auto; ovr). eapply good_drain_start. ovr.
+  - rewrite Q, Q0, I2 in H. destruct w; try solve [gd];
+      (match goal with |- context [if dlocked ?S then _ else _] => destruct (dlocked S) end;
+       eapply good_hc_after_loop; auto; ovr).
+  - rewrite Q, Q0, I2 in H. destruct w; try solve [gd]. eapply good_drain_go. ovr.
+  - rewrite Q, Q0, I2 in H. eapply good_hc_after_loop; auto. ovr.
+  - rewrite Q, Q0, I2 in H. destruct (c_wk (getc s c)) as [[| | | |[|]]|]; try solve [gd]; (eapply good_drain_go; ovr).
 Qed.
 
 (* ---------------------------------------------------------------- the global pairing invariant *)
@@ -521,7 +563,7 @@ Proof.
   apply (cinv_other s _ c); auto. rewrite T. apply proj_okevm; auto.
 Qed.
 
-Lemma mf_mk : forall s s1 a b c d e f g h, mframe s s1 -> mframe s (mkSt (conns s1) a b c d e f g (trace s1) h).
+Lemma mf_mk : forall s s1 a b c d e f g h i j, mframe s s1 -> mframe s (mkSt (conns s1) a b c d e f g (trace s1) h i j).
 Proof. intros. eapply mf_same_conns_trace; [| |eassumption]; reflexivity. Qed.
 Lemma mf_set_main : forall s s1 p w, mframe s s1 -> mframe s (set_main s1 p w).
 Proof. intros. unfold set_main. apply mf_mk. auto. Qed.
@@ -591,7 +633,7 @@ Proof.
   - split; auto.
 Qed.
 
-Lemma psoft_any_flags : forall x k f b, psoft x (mkConn (c_addr x) (c_pc x) k f (c_task x) (c_entry x) (c_writer x) b (c_rd x) (c_wr x) (c_err x)).
+Lemma psoft_any_flags : forall x k f b g, psoft x (mkConn (c_addr x) (c_pc x) k f (c_task x) (c_entry x) (c_writer x) b (c_rd x) (c_wr x) (c_err x) g).
 Proof. intros. unfold psoft; simpl; intuition. Qed.
 
 Lemma inv1_step : forall s i s', step s i = Some s' -> Inv1 s -> Inv1 s'.
@@ -609,6 +651,9 @@ Proof.
     eapply inv1_frame; eauto. apply frame_setc. apply psoft_any_flags.
   - inversion H; subst. destruct (_ && _); auto. eapply inv1_frame; eauto using frame_cancel.
   - destruct (_ && _); inversion H; subst. eapply inv1_frame; eauto. apply frame_setc. apply psoft_any_flags.
+  - destruct (_ && _); inversion H; subst. eapply inv1_frame; eauto. apply frame_setc. apply psoft_any_flags.
+  - destruct (c_pc (getc s c)); try discriminate. destruct (_ && _); inversion H; subst.
+    eapply inv1_frame; eauto. apply frame_setc. apply psoft_any_flags.
   - destruct t.
     + destruct (_ && _); inversion H; subst. apply inv1_run_main; auto.
     + destruct (conn_ready s c) eqn:R; simpl in H; [|discriminate].
